@@ -7,6 +7,7 @@
 package rnd
 
 import (
+	"errors"
 	cryptRand "crypto/rand"
 	"crypto/sha256"
 	"encoding/binary"
@@ -29,6 +30,10 @@ type Stream struct {
 	// reads of exactly 8 bytes (math/rand Int63 draws through csrand), so
 	// key/seed/padding reads of other sizes in between do not disturb it.
 	Script8 [][]byte
+	// FailAfter > 0: the FailAfter-th Read call and every later one fail (an
+	// entropy source that breaks)
+	FailAfter int
+	calls     int
 }
 
 // New returns stream (seed,label).
@@ -38,8 +43,17 @@ func New(seed int64, label any) *Stream {
 	return s
 }
 
+// ErrEntropy is what a stream with FailAfter set returns once it is exhausted.
+var ErrEntropy = errors.New("rnd: injected entropy source failure")
+
 func (s *Stream) Read(p []byte) (int, error) {
 	n := len(p)
+	if s.FailAfter > 0 {
+		s.calls++
+		if s.calls >= s.FailAfter {
+			return 0, ErrEntropy
+		}
+	}
 	s.Reads += int64(n)
 	if n == 8 && len(s.Script8) > 0 {
 		copy(p, s.Script8[0])
